@@ -26,7 +26,12 @@ VERIF_NOOPT static bool proper_cross(ll ax, ll ay, ll bx, ll by, ll cx, ll cy, l
 }
 #define IN() verif_int_in(-G, G)
 
-extern "C" VERIF_NOOPT void harness(void) {
+#if WHICH == 8
+#define HARNESS_ATTR            /* optimised: min/max become selects instead of forks (sound either way, see verif.h) */
+#else
+#define HARNESS_ATTR VERIF_NOOPT
+#endif
+extern "C" HARNESS_ATTR void harness(void) {
 #if WHICH == 1      // vecDir
     int ax = IN(), ay = IN(), bx = IN(), by = IN(), cx = IN(), cy = IN();
     Point a(ax, ay), b(bx, by), c(cx, cy);
